@@ -102,6 +102,11 @@ type c18World struct {
 	bscMaxE    *c18BscChain // … one header at height 2^64-1 with epoch 2^64-1
 	bscChains  map[uint64]*c18BscChain
 	tmR        *c18TmrChain // synthetic Tendermint chain whose validator set changes with every block (c18_tm_test.go)
+	tmV, tmW, tmX *c18TmrChain // revision 1 at 990…, its successor revision 2 starting again at 3…, and at 995…
+	proofH     int64 // height of the live counterparty whose application hash every synthetic header carries
+	// per Tendermint client, BY CONSTRUCTION: the height its last accepted proposal installed, and the greatest
+	// (revision, block number) among that and the heights of the updates accepted since
+	tmInstalled, tmWant map[string]clienttypes.Height
 	// per installed TSS client: the TSS address it must have BY CONSTRUCTION (the proposal's, then the one of every
 	// accepted key-rotation header) — independent of what the store says
 	tssAddr map[string]string
@@ -156,7 +161,13 @@ func newC18World(t *testing.T) *c18World {
 	w.bscBig = newC18BscChainAt(7141, 10, 18446744073709551600, 6)
 	w.bscMaxE = newC18BscChainAt(7142, 18446744073709551615, 18446744073709551615, 1)
 	w.bscChains = map[uint64]*c18BscChain{c18BscChainID: w.bscG, 7141: w.bscBig, 7142: w.bscMaxE}
-	w.tmR = newC18TmrChain(w.coord.CurrentTime.Add(-10 * time.Minute).Truncate(time.Second))
+	t0 := w.coord.CurrentTime.Add(-10 * time.Minute).Truncate(time.Second)
+	w.proofH = w.chainB.LastHeader.Header.Height
+	ah := append([]byte{}, w.chainB.LastHeader.Header.AppHash...)
+	w.tmR = newC18TmrChainAt(c18TmrChainID, c18TmrFirst, c18TmrLast-c18TmrFirst+1, t0, ah)
+	w.tmV = newC18TmrChainAt("c18rev-1", 990, 14, t0, ah)
+	w.tmW = newC18TmrChainAt("c18rev-2", 3, 10, t0.Add(2*time.Second), ah)
+	w.tmX = newC18TmrChainAt("c18rev-2", 995, 10, t0.Add(2*time.Second), ah)
 	w.addr["r0"] = w.chainA.SenderAcc.String()
 	w.addr["r1"] = sdk.AccAddress(sha256.New().Sum([]byte("r1"))[:20]).String()
 	w.addr["tssA"] = sdk.AccAddress(sha256.New().Sum([]byte("tssA"))[:20]).String()
@@ -185,6 +196,7 @@ func (w *c18World) reset() {
 	w.tmSnap = nil
 	w.consistent = map[string]bool{}
 	w.tssAddr = map[string]string{}
+	w.tmInstalled, w.tmWant = map[string]clienttypes.Height{}, map[string]clienttypes.Height{}
 	w.self = w.app.XIBCKeeper.ClientKeeper.GetChainName(w.ctx)
 }
 
@@ -451,6 +463,11 @@ func (w *c18World) realiseCS(desc string) exported.ClientState {
 		}
 		return tmtypes.NewClientState(w.chainB.ChainID, tmtypes.DefaultTrustLevel, tp, xibctesting.UnbondingPeriod,
 			xibctesting.MaxClockDrift, hd.GetHeight().(clienttypes.Height), commitmenttypes.GetSDKSpecs(), xibctesting.Prefix, delay)
+	case "tmv0", "tmw0", "tmx0": // revision 1 at block 990; revision 2 starting again at block 3 / continuing at 995
+		c := map[string]*c18TmrChain{"tmv0": w.tmV, "tmw0": w.tmW, "tmx0": w.tmX}[desc]
+		hd := c.hdr[c.first]
+		return tmtypes.NewClientState(c.chainID, tmtypes.DefaultTrustLevel, xibctesting.TrustingPeriod, xibctesting.UnbondingPeriod,
+			xibctesting.MaxClockDrift, hd.GetHeight().(clienttypes.Height), commitmenttypes.GetSDKSpecs(), xibctesting.Prefix, 0)
 	case "tmr0", "tmr1": // synthetic chain, validator set changes with every block
 		hd := w.tmR.hdr[c18TmrFirst+3*int64(desc[3]-'0')]
 		return tmtypes.NewClientState(c18TmrChainID, tmtypes.DefaultTrustLevel, xibctesting.TrustingPeriod, xibctesting.UnbondingPeriod,
@@ -640,6 +657,9 @@ func (w *c18World) realiseKS(desc string) exported.ConsensusState {
 			k.Timestamp = time.Unix(0, 0).UTC()
 		}
 		return k
+	case "tmv0", "tmw0", "tmx0":
+		c := map[string]*c18TmrChain{"tmv0": w.tmV, "tmw0": w.tmW, "tmx0": w.tmX}[desc]
+		return c.hdr[c.first].ConsensusState()
 	case "tmr0", "tmr1":
 		return w.tmR.hdr[c18TmrFirst+3*int64(desc[3]-'0')].ConsensusState()
 	case "bscr0", "bscr1", "bscr2":
@@ -691,6 +711,9 @@ func (w *c18World) baseTime(base string) time.Time {
 	switch base {
 	case "now":
 		return w.now
+	case "tmv0", "tmw0", "tmx0":
+		c := map[string]*c18TmrChain{"tmv0": w.tmV, "tmw0": w.tmW, "tmx0": w.tmX}[base]
+		return c.hdr[c.first].GetTime()
 	case "tmr0", "tmr1":
 		return w.tmR.hdr[c18TmrFirst+3*int64(base[3]-'0')].GetTime()
 	case "bscr0", "bscr1", "bscr2", "bscq0", "bscq1", "bscq2":
@@ -745,8 +768,10 @@ func (w *c18World) c18Consistent(cs exported.ClientState, ks exported.ConsensusS
 		}
 		// the consensus state of the header the client state points at, on the chain the client state names
 		var hd *tmtypes.Header
-		if c.ChainId == c18TmrChainID {
-			hd = w.tmR.hdr[int64(c.LatestHeight.RevisionHeight)]
+		if w.tmSynthetic(c.ChainId) {
+			if ch := w.tmChainAt(c.LatestHeight); ch != nil && ch.chainID == c.ChainId {
+				hd = ch.hdr[int64(c.LatestHeight.RevisionHeight)]
+			}
 		} else if w.tmSnap != nil && w.tmSnap.GetHeight().EQ(c.LatestHeight) {
 			hd = w.tmSnap
 		}
@@ -902,6 +927,29 @@ func (w *c18World) apply(r *Rec, op string) (string, string) {
 	return "", ""
 }
 
+// the synthetic Tendermint chain holding the header of (revision, height)
+func (w *c18World) tmChainAt(h clienttypes.Height) *c18TmrChain {
+	for _, c := range []*c18TmrChain{w.tmR, w.tmV, w.tmW, w.tmX} {
+		if clienttypes.ParseChainID(c.chainID) == h.RevisionNumber {
+			if _, ok := c.hdr[int64(h.RevisionHeight)]; ok {
+				return c
+			}
+		}
+	}
+	return nil
+}
+
+func (w *c18World) tmSynthetic(chainID string) bool {
+	return chainID == w.tmR.chainID || chainID == w.tmV.chainID || chainID == w.tmW.chainID
+}
+
+func c18MaxLex(a, b clienttypes.Height) clienttypes.Height {
+	if b.GT(a) {
+		return b
+	}
+	return a
+}
+
 // every client's Status(), sorted by name
 func (w *c18World) statuses() string {
 	ck := w.app.XIBCKeeper.ClientKeeper
@@ -980,9 +1028,17 @@ func (w *c18World) dry(r *Rec, inner []string) (string, string) {
 	for k, v := range w.consistent {
 		saveCons[k] = v
 	}
+	saveInst, saveWant := map[string]clienttypes.Height{}, map[string]clienttypes.Height{}
+	for k, v := range w.tmInstalled {
+		saveInst[k] = v
+	}
+	for k, v := range w.tmWant {
+		saveWant[k] = v
+	}
 	w.ctx, _ = w.ctx.CacheContext()
 	conc, out := w.apply(r, strings.Join(inner, " "))
 	w.ctx, w.hist, w.tmSnap, w.tssAddr, w.consistent = saveCtx, saveHist, saveSnap, saveTss, saveCons
+	w.tmInstalled, w.tmWant = saveInst, saveWant
 	r.Count("dry." + inner[0] + "." + strings.Fields(out)[0])
 	after, relAfter := w.dump(w.ctx), w.dumpRelayers(w.ctx)
 	if after != before || relAfter != relBefore {
@@ -1201,6 +1257,11 @@ func (w *c18World) proposal(r *Rec, f []string) (string, string) {
 		if kind == "create" && name == w.self {
 			w.find(r, "C18:create-accepted-own-chain-name", "create accepted under the chain's own name "+name, "ok", "error")
 		}
+		delete(w.tmInstalled, name)
+		delete(w.tmWant, name)
+		if tc, ok := cs.(*tmtypes.ClientState); ok {
+			w.tmInstalled[name], w.tmWant[name] = tc.LatestHeight, tc.LatestHeight
+		}
 		delete(w.tssAddr, name)
 		if tc, ok := cs.(*tsstypes.ClientState); ok {
 			w.tssAddr[name] = tc.TssAddress
@@ -1286,6 +1347,34 @@ func (w *c18World) verify(r *Rec, f []string) (string, string) {
 	ptxt := "-"
 	switch ty {
 	case "tm":
+		if want, ok := w.tmWant[n]; ok && (f[2] == "latest" || f[2] == "hi" || f[2] == "bad") {
+			h = want // the latest height BY CONSTRUCTION (installed height, accepted update heights)
+		}
+		if inst, ok := w.tmInstalled[n]; ok && f[2] == "installed" {
+			h = inst // the height the last accepted lifecycle proposal installed
+		}
+		if w.tmSynthetic(cs.(*tmtypes.ClientState).ChainId) {
+			// every synthetic header carries the application hash of the live counterparty at proofH: its genuine
+			// ICS-23 proofs verify against every consensus state of the synthetic chains
+			if f[2] == "nocons" {
+				return "noop", "skip"
+			}
+			if f[2] == "hi" {
+				h.RevisionHeight++
+			}
+			proof, _ = w.chainB.QueryProofAtHeight(host.PacketCommitmentKey(c18Src, c18Dst, c18Seq), w.proofH)
+			// ground truth of the membership: the proof commits to the counterparty's root at proofH, which is the root of
+			// every genuine synthetic consensus state (a proposal may have paired the client state with a foreign one)
+			member = false
+			if ks, ok := ck.GetClientConsensusState(w.ctx, n, h); ok {
+				member = string(ks.GetRoot()) == string(w.tmR.hdr[c18TmrFirst].Header.AppHash)
+			}
+			if f[2] == "bad" {
+				proof[len(proof)/2] ^= 0x55
+				member = false
+			}
+			break
+		}
 		if cs.(*tmtypes.ClientState).ChainId != w.chainB.ChainID {
 			return "noop", "skip" // only the live counterparty has application state to prove against
 		}
@@ -1343,13 +1432,16 @@ func (w *c18World) verify(r *Rec, f []string) (string, string) {
 	}
 	r.Count("verify." + ty + "." + f[2] + "." + out)
 	// oracle: a genuine proof at the client's latest height verifies once the delay has passed, if the client is active
-	if f[2] == "latest" && out != "ok" && cs.Status(w.ctx, st, w.cdc) == exported.Active {
+	if (f[2] == "latest" || f[2] == "installed") && member && out != "ok" && cs.Status(w.ctx, st, w.cdc) == exported.Active {
 		pass := true
 		if ty == "tm" {
 			m := c18StoreMap(st)
 			if pt, ok := m["pt:"+c18H(h)]; ok {
 				p, _ := strconv.ParseUint(pt, 10, 64)
 				pass = p+cs.GetDelayTime() <= uint64(w.now.UnixNano())
+			}
+			if _, ok := m["c:"+c18H(h)]; !ok && f[2] == "installed" {
+				pass = false // the installed consensus state has been pruned since
 			}
 		}
 		if pass {
@@ -1370,6 +1462,8 @@ func (w *c18World) update(r *Rec, f []string) (string, string) {
 	}
 	var header exported.Header
 	vbc := false // valid by construction: the genuine next header for the installed client
+	otherRev := false    // … BSC / ETH: the next block under a revision number other than the client's
+	tmOldRev := false    // … a late header of an earlier revision than the client's
 	tmRotation := false  // … of the synthetic Tendermint chain: signed by a validator set other than the previous header's
 	bscNewcomer := false // … sealed by a validator that joined with the set announced at the install / last epoch
 	switch {
@@ -1390,19 +1484,42 @@ func (w *c18World) update(r *Rec, f []string) (string, string) {
 	default: // next | stale | forged : by the installed client's type
 		switch ty {
 		case "tm":
-			synthetic := cs.(*tmtypes.ClientState).ChainId == c18TmrChainID
+			synthetic := w.tmSynthetic(cs.(*tmtypes.ClientState).ChainId)
 			if how != "stale" && !synthetic {
 				w.coord.CommitBlock(w.chainB)
 			}
 			trusted := cs.GetLatestHeight().(clienttypes.Height)
+			if want, ok := w.tmWant[n]; ok && synthetic { // by construction, not what the store says
+				trusted = want
+			}
 			var hd *tmtypes.Header
 			var err error
-			if synthetic { // the next header of the chain whose validator set changes with every block
+			if synthetic && how == "oldrev" {
+				// a valid LATE header of an EARLIER revision: the next block after the highest consensus state of a
+				// lower revision that is still in the store
+				var best clienttypes.Height
+				for key := range c18StoreMap(ck.ClientStore(w.ctx, n)) {
+					if strings.HasPrefix(key, "c:") {
+						if hh, e := clienttypes.ParseHeight(key[2:]); e == nil && hh.RevisionNumber < trusted.RevisionNumber && hh.GT(best) {
+							best = hh
+						}
+					}
+				}
+				if ch := w.tmChainAt(best); ch != nil && !best.IsZero() {
+					trusted = best
+					hd = ch.update(int64(best.RevisionHeight)+1, best)
+					if hd != nil {
+						tmRotation, tmOldRev = true, true
+					}
+				}
+			} else if synthetic { // the next header of the chain whose validator set changes with every block
 				nh := int64(trusted.RevisionHeight) + 1
 				if how == "stale" {
 					nh--
 				}
-				hd = w.tmR.update(nh, trusted)
+				if ch := w.tmChainAt(clienttypes.NewHeight(trusted.RevisionNumber, uint64(nh))); ch != nil {
+					hd = ch.update(nh, trusted)
+				}
 				if hd != nil && how == "next" {
 					tmRotation = true
 				}
@@ -1431,7 +1548,7 @@ func (w *c18World) update(r *Rec, f []string) (string, string) {
 			}
 			header = hd
 			ht := hd.GetHeight().(clienttypes.Height)
-			vbc = how == "next" && (!synthetic || tmRotation) && ht.GT(trusted) && hd.GetTime().Before(w.now.Add(xibctesting.MaxClockDrift)) /* light.Verify: header time must be strictly before now + drift */
+			vbc = (how == "next" || how == "oldrev") && (!synthetic || tmRotation) && ht.GT(trusted) && hd.GetTime().Before(w.now.Add(xibctesting.MaxClockDrift)) /* light.Verify: header time must be strictly before now + drift */
 		case "bsc":
 			num := cs.GetLatestHeight().GetRevisionHeight()
 			if gc, isGen := w.bscChains[cs.(*bsctypes.ClientState).ChainId]; isGen { // a generated chain with rotating validator sets
@@ -1445,6 +1562,10 @@ func (w *c18World) update(r *Rec, f []string) (string, string) {
 				}
 				hh := *g
 				hh.Height.RevisionNumber = cs.GetLatestHeight().GetRevisionNumber()
+				if how == "otherrev" { // the genuine next block, labelled with another revision number than the client's
+					hh.Height.RevisionNumber = (hh.Height.RevisionNumber + 7) % 11
+					otherRev = true
+				}
 				if how == "forged" { // sealed by a key that is not the coinbase
 					cb := append([]byte{}, hh.Coinbase...)
 					cb[1] ^= 0x01
@@ -1483,6 +1604,10 @@ func (w *c18World) update(r *Rec, f []string) (string, string) {
 			}
 			hh := w.ethHdr[idx].ToHeader()
 			hh.Height.RevisionNumber = cs.GetLatestHeight().GetRevisionNumber()
+			if how == "otherrev" {
+				hh.Height.RevisionNumber = (hh.Height.RevisionNumber + 7) % 11
+				otherRev = true
+			}
 			if how == "forged" {
 				hh.Nonce ^= 1
 				if cs.(*ethtypes.ClientState).ChainId == 4 {
@@ -1609,6 +1734,19 @@ func (w *c18World) update(r *Rec, f []string) (string, string) {
 	if tmRotation {
 		r.Count("update.tm.valset-changed." + res)
 	}
+	if otherRev {
+		r.Count("update." + ty + ".other-revision-label." + res)
+		if res == "ok" {
+			w.find(r, "C18:update-changed-revision:"+ty, "a "+ty+" client accepted a header labelled with another revision number than its own: its latest height leaves the revision the lifecycle proposal installed", "ok", "error")
+		}
+	}
+	if tmOldRev {
+		above := "below"
+		if gh != nil && gh.GetRevisionHeight() > w.tmWant[n].RevisionHeight {
+			above = "above"
+		}
+		r.Count("update.tm.late-old-revision-header." + above + "-new-latest-block." + res)
+	}
 	if os.Getenv("C18_DEBUG") != "" && res != "ok" {
 		fmt.Printf("DEBUG update %s %s vbc=%v auth=%v active=%v: %v\n    hist=%v\n", ty, how, vbc, authorised, active, perr, w.hist)
 	}
@@ -1651,9 +1789,13 @@ func (w *c18World) update(r *Rec, f []string) (string, string) {
 		case *tmtypes.Header:
 			sc, ok := stored.(*tmtypes.ClientState)
 			oldL := cs.GetLatestHeight().(clienttypes.Height)
-			wantL := hd.GetHeight().(clienttypes.Height)
-			if oldL.GT(wantL) {
-				wantL = oldL
+			if t, ok := w.tmWant[n]; ok {
+				oldL = t // by construction: installed height and the accepted update heights, not the stored latest
+			}
+			wantL := c18MaxLex(oldL, hd.GetHeight().(clienttypes.Height))
+			w.tmWant[n] = wantL
+			if inst, ok := w.tmInstalled[n]; ok && sc != nil && inst.GT(sc.LatestHeight) {
+				w.find(r, "C18:latest-height-below-installed:tm", fmt.Sprintf("after an accepted update the Tendermint client's latest height %s is below the height %s its last lifecycle proposal installed", sc.LatestHeight, inst), sc.LatestHeight.String(), ">= "+inst.String())
 			}
 			okStored = ok && sc.LatestHeight.EQ(wantL)
 			want = "tm latest " + c18H(wantL)
@@ -1702,7 +1844,7 @@ func c18CSOf(ty string, second bool) (string, string) {
 
 func c18TimeFor(cs string) string {
 	switch {
-	case cs == "tmr0" || cs == "tmr1" || cs == "tmbig" || cs == "bscbig" || cs == "bscmaxe" || cs == "ethq0" || cs == "ethq1":
+	case cs == "tmv0" || cs == "tmw0" || cs == "tmx0" || cs == "tmr0" || cs == "tmr1" || cs == "tmbig" || cs == "bscbig" || cs == "bscmaxe" || cs == "ethq0" || cs == "ethq1":
 		return cs
 	case strings.HasPrefix(cs, "bscq"):
 		return cs[:5]
@@ -1776,11 +1918,11 @@ func c18Use(name, cs string, who string) []string {
 			}
 			h = append(h, "update "+name+" "+who+" next")
 		}
-		h = append(h, "status "+name, "update "+name+" "+who+" forged", "update "+name+" "+who+" stale")
+		h = append(h, "status "+name, "update "+name+" "+who+" forged", "update "+name+" "+who+" stale", "update "+name+" "+who+" otherrev", "status "+name)
 		h = append(h, prune(999997)...)
 	case strings.HasPrefix(cs, "eth"):
 		h = append(h, "time "+c18TimeFor(cs)+" 200", "update "+name+" "+who+" next", "dry update "+name+" "+who+" next", "update "+name+" "+who+" next", "restart", "update "+name+" "+who+" next", "status "+name,
-			"update "+name+" "+who+" forged", "update "+name+" "+who+" stale")
+			"update "+name+" "+who+" forged", "update "+name+" "+who+" stale", "update "+name+" "+who+" otherrev", "status "+name)
 		h = append(h, prune(999997)...)
 	default:
 		h = append(h, "time "+c18TimeFor(cs)+" 200", "update "+name+" "+who+" next", "update "+name+" "+who+" next", "status "+name)
@@ -1972,6 +2114,31 @@ func c18Boundary() [][]string {
 	out = append(out, append(append([]string{}, rel...), append([]string{"time eth0 1", "create N0 eth0 eth0", "time ethq1 1", "upgrade N0 ethq1 ethq1"}, c18Use("N0", "ethq1", "r0")...)...))
 	// mismatching revisions between client state and consensus state of the same header
 	out = append(out, append(append([]string{}, rel...), "time bscq0 1", "create N0 bscq0 bscr0", "status N0", "create N1 ethq0 eth0", "status N1", "restart"))
+	return out
+}
+
+// Tendermint clients moved to a NEW revision by an upgrade proposal, the block numbers of the new revision starting
+// again BELOW (tmw0: 2-3) or continuing near (tmx0: 2-995) those of the old one (1-990 …): late valid headers of the old
+// revision with block numbers above and below the new latest block number, new-revision headers, genuine proofs at the
+// installed height and at the latest height in between. The latest height must stay the lexicographic maximum.
+func c18Revisions() [][]string {
+	var out [][]string
+	rel := []string{"reset", "relayer r0 N0 N1", "relayer tssA N0 N1", "relayer tssB N0", "time tmv0 120"}
+	for _, nw := range []string{"tmw0", "tmx0"} {
+		for _, start := range [][]string{{"create N0 tmv0 tmv0"}, {"create N0 tssA tss", "toggle N0 tmv0 tmv0"}} {
+			h := append(append([]string{}, rel...), start...)
+			h = append(h, "update N0 r0 next", "update N0 r0 next", "update N0 r0 next", "verify N0 latest", "verify N0 installed",
+				"dry upgrade N0 "+nw+" "+nw, "upgrade N0 "+nw+" "+nw, "status N0", "verify N0 installed", "verify N0 latest",
+				"update N0 r0 oldrev", "status N0", "verify N0 installed", "verify N0 latest",
+				"update N0 r0 next", "verify N0 latest", "verify N0 installed",
+				"dry update N0 r0 oldrev", "update N0 r0 oldrev", "update N0 r0 next", "restart", "verify N0 installed", "verify N0 latest",
+				"update N0 r0 oldrev", "update N0 r0 oldrev", "verify N0 installed", "update N0 r0 next", "verify N0 latest", "update N0 r0 stale", "update N0 r0 forged", "status N0")
+			out = append(out, h)
+		}
+	}
+	// the same revision change by toggle (through TSS) instead of upgrade: nothing of revision 1 survives, no late header applies
+	out = append(out, append(append([]string{}, rel...), "create N0 tmv0 tmv0", "update N0 r0 next", "toggle N0 tssA tss", "toggle N0 tmw0 tmw0", "verify N0 installed",
+		"update N0 r0 oldrev", "update N0 r0 next", "verify N0 latest", "verify N0 installed"))
 	return out
 }
 
@@ -2273,6 +2440,9 @@ func TestC18(t *testing.T) {
 			run(h)
 		}
 		for _, h := range c18Boundary() {
+			run(h)
+		}
+		for _, h := range c18Revisions() {
 			run(h)
 		}
 	}
